@@ -193,7 +193,10 @@ class CirculationPump(BranchWOInternalsComponent):
         from_nodes = get_from_nodes_corrected(branch_pit[f:t])
         t_from = node_pit[from_nodes, TINIT]
         tout = branch_pit[f:t, TOUTINIT]
-        res_table['deltat_k'].values[:] = t_from - tout
+        # only elements that take part in the calculation report results
+        lookup_name = "active_hydraulics" if mode == "hydraulics" else "active_heat_transfer"
+        connected = get_lookup(net, "branch", lookup_name)[f:t]
+        res_table['deltat_k'].values[connected] = (t_from - tout)[connected]
 
         fluid = get_fluid(net)
 
@@ -201,4 +204,4 @@ class CirculationPump(BranchWOInternalsComponent):
         cp_i1 = fluid.get_heat_capacity(tout)
 
         mass = branch_pit[f:t, MDOTINIT]
-        res_table['qext_w'].values[:] = mass * (cp_i1 + cp_i) / 2 * (tout - t_from)
+        res_table['qext_w'].values[connected] = (mass * (cp_i1 + cp_i) / 2 * (tout - t_from))[connected]
